@@ -322,6 +322,9 @@ def call_bound(P, name, recv, args, kwargs):
         c.name = None
         _register_fresh(P, c)
         return c
+    if name == 'symmap.items' and not args:   # absnodes: only iterated by the loop rule
+        from . import absnodes
+        return absnodes.SymItems(recv)
     if name == 'symmap.keys' and not args:
         pr = recv.present
         return SymSet(lambda x: pr(x), recv.kname)
@@ -482,7 +485,7 @@ def _forall(P, mk, wrap, fn, what):
 # -------------------------------------------------------------- loop rule
 
 def is_symbolic_iterable(v):
-    return isinstance(v, SYM)
+    return isinstance(v, SYM) or type(v).__name__ == 'SymItems'   # absnodes: map.items()
 
 
 def _for_loops(fn_node):
@@ -573,6 +576,10 @@ class _Havoc:
             if not _pure_path(node):
                 raise InterpError(f'loop_modifies: bad path {path}')
             if isinstance(node, ast.Name):
+                v = fr.locals.get(node.id)
+                if isinstance(v, MUTABLE):   # absnodes: a local container mutated by method calls (.add)
+                    self.conts.append(v)
+                    continue
                 self.locals.append(node.id)
                 continue
             v = P.ev(node, fr)
@@ -656,6 +663,13 @@ def loop_rule(P, st, fr, it):
         from .interp import MergeAbort
         raise MergeAbort()
     targets = _flatten_targets(st.target, [])
+    items_map = None
+    if type(it).__name__ == 'SymItems':   # absnodes: `for k, v in m.items()`
+        items_map = it = it.map
+        if len(targets) != 2 or not all(isinstance(t, ast.Name) for t in targets):
+            raise Unsupported('loop rule: items() needs the target `k, v`')
+        vname = targets[1].id
+        targets = targets[:1]
     if len(targets) != 1 or not isinstance(targets[0], ast.Name):
         raise Unsupported('loop rule: the loop target must be a single name')
     tname = targets[0].id
@@ -712,7 +726,11 @@ def loop_rule(P, st, fr, it):
         for k, cond in clauses(done).items():
             P.assume(P.truthy(cond), fact=True)
         fr.locals[tname] = key
+        if items_map is not None:   # absnodes
+            from . import absnodes
+            fr.locals[vname] = absnodes.wrap_value(items_map, items_map.value(key.term))
         from .interp import _Break, _Continue
+        prev_guard = P.loop_guard   # absnodes: nested inside a while rule
         P.loop_guard = {'allowed': hv.allowed(), 'fresh': set(), 'keep': []}
         try:
             try:
@@ -722,7 +740,7 @@ def loop_rule(P, st, fr, it):
             except _Break:
                 raise Unsupported('loop rule: break')
         finally:
-            P.loop_guard = None
+            P.loop_guard = prev_guard
         for k, cond in clauses(done2).items():
             P.oblige(f'{short}#inv{idx}-step[{k}]', 'inv', P.truthy(cond))
         raise LoopStepDone()
@@ -734,6 +752,8 @@ def loop_rule(P, st, fr, it):
         doneS = S
     for k, cond in clauses(doneS).items():
         P.assume(P.truthy(cond), fact=True)
+    if items_map is not None:   # absnodes
+        fr.locals.pop(vname, None)
     if not was_bound:
         fr.locals.pop(tname, None)
     else:
